@@ -13,85 +13,99 @@ Proof. unfold zlen. rewrite bits_of_length. lia. Qed.
 Lemma zlen_bits_tail v j : zlen (bits_tail v j) = Z.of_nat j.
 Proof. unfold zlen. rewrite bits_tail_length. reflexivity. Qed.
 
-(* the bits of one byte over any cells of the row *)
-Lemma put_bits_paints j : forall a seg b x y w width pw v,
-  length seg = j -> zlen a = y * width + x + pw -> x + Z.of_nat j <= w ->
-  put_bits j (a ++ seg ++ b) x y w width pw v = Ok (a ++ bits_tail v j ++ b, x + Z.of_nat j).
+(* the bits of one byte over the cells of the row that lie inside the image *)
+Lemma put_bits_paints j : forall a seg b x y w iw width pw v,
+  length seg = length (vis iw x (bits_tail v j)) -> (x < iw -> zlen a = y * width + x + pw) -> x + Z.of_nat j <= w ->
+  put_bits j (a ++ seg ++ b) x y w iw width pw v = Ok (a ++ vis iw x (bits_tail v j) ++ b, x + Z.of_nat j).
 Proof.
-  induction j as [|j IH]; intros a seg b x y w width pw v Hl Ha Hx.
-  - destruct seg; [|discriminate]. cbn [put_bits bits_tail app]. rewrite Z.add_0_r. reflexivity.
-  - destruct seg as [|s seg]; [discriminate|]. cbn [put_bits].
-    destruct (Z.geb_spec x w); [lia|].
-    cbn [app]. rewrite set_idx_app by lia. cbn [bind].
-    set (c := bit_of v (8 - Z.of_nat (S j))).
-    replace (a ++ c :: seg ++ b) with ((a ++ [c]) ++ seg ++ b) by (rewrite <- app_assoc; reflexivity).
-    rewrite IH; [| cbn in Hl; lia | rewrite zlen_app; change (zlen [c]) with 1; lia | lia].
-    cbn [bits_tail]. fold c. rewrite <- app_assoc. cbn [app]. f_equal. f_equal. lia.
+  induction j as [|j IH]; intros a seg b x y w iw width pw v Hl Ha Hx.
+  - cbn [bits_tail] in *. rewrite vis_nil in *. destruct seg; [|discriminate]. cbn [put_bits app]. rewrite Z.add_0_r. reflexivity.
+  - cbn [put_bits bits_tail] in *. destruct (Z.geb_spec x w); [lia|].
+    set (c := bit_of v (8 - Z.of_nat (S j))) in *.
+    destruct (Z.ltb_spec x iw) as [Hin|Hout].
+    + rewrite vis_cons_in in * by assumption. destruct seg as [|s seg]; [discriminate|].
+      cbn [app]. rewrite set_idx_app by (rewrite (Ha Hin); reflexivity). cbn [bind].
+      replace (a ++ c :: seg ++ b) with ((a ++ [c]) ++ seg ++ b) by (rewrite <- app_assoc; reflexivity).
+      rewrite IH; [| cbn in Hl; lia | intros _; rewrite zlen_app, (Ha Hin); change (zlen [c]) with 1; lia | lia].
+      rewrite <- app_assoc. cbn [app]. f_equal. f_equal. lia.
+    + rewrite vis_out in * by assumption. destruct seg; [|discriminate]. cbn [bind app].
+      pose proof (IH a [] b (x + 1) y w iw width pw v) as E. rewrite vis_out in E by lia. cbn [app length] in E.
+      rewrite E; [| reflexivity | intros; lia | lia]. f_equal. f_equal. lia.
+Qed.
+
+Lemma vis_bits_cons iw x c l : vis iw x (bits_of (c :: l)) = vis iw x (bits8 c) ++ vis iw (x + 8) (bits_of l).
+Proof.
+  cbn [bits_of flat_map]. fold (bits_of l). rewrite vis_app. unfold bits8. rewrite zlen_bits_tail. reflexivity.
 Qed.
 
 (* a run token: n copies of one byte, 8 pixels each *)
-Lemma put_run1_paints n : forall a seg b x y w width pw c,
-  length seg = (8 * n)%nat -> zlen a = y * width + x + pw -> x + 8 * Z.of_nat n <= w ->
-  put_run1 n (a ++ seg ++ b) x y w width pw (u8 c) = Ok (a ++ bits_of (repeat c n) ++ b, x + 8 * Z.of_nat n).
+Lemma put_run1_paints n : forall a seg b x y w iw width pw c,
+  length seg = length (vis iw x (bits_of (repeat c n))) -> (x < iw -> zlen a = y * width + x + pw) -> x + 8 * Z.of_nat n <= w ->
+  put_run1 n (a ++ seg ++ b) x y w iw width pw (u8 c) = Ok (a ++ vis iw x (bits_of (repeat c n)) ++ b, x + 8 * Z.of_nat n).
 Proof.
-  induction n as [|n IH]; intros a seg b x y w width pw c Hl Ha Hx.
-  - destruct seg; [|discriminate]. cbn [put_run1 repeat bits_of flat_map app]. rewrite Z.add_0_r. reflexivity.
-  - cbn [put_run1].
-    set (seg1 := firstn 8 seg). set (seg2 := skipn 8 seg).
+  induction n as [|n IH]; intros a seg b x y w iw width pw c Hl Ha Hx.
+  - cbn [repeat bits_of flat_map] in *. rewrite vis_nil in *. destruct seg; [|discriminate]. cbn [put_run1 app]. rewrite Z.add_0_r. reflexivity.
+  - cbn [put_run1 repeat] in *. rewrite vis_bits_cons in *. rewrite app_length in Hl.
+    set (n1 := length (vis iw x (bits8 c))) in *.
+    set (seg1 := firstn n1 seg). set (seg2 := skipn n1 seg).
     assert (Hs : seg = seg1 ++ seg2) by (symmetry; apply firstn_skipn).
-    assert (Hl1 : length seg1 = 8%nat) by (unfold seg1; rewrite firstn_length; lia).
-    assert (Hl2 : length seg2 = (8 * n)%nat) by (unfold seg2; rewrite skipn_length; lia).
+    assert (Hl1 : length seg1 = n1) by (unfold seg1; rewrite firstn_length; lia).
+    assert (Hl2 : length seg2 = length (vis iw (x + 8) (bits_of (repeat c n)))) by (unfold seg2; rewrite skipn_length; lia).
     rewrite Hs. replace (a ++ (seg1 ++ seg2) ++ b) with (a ++ seg1 ++ (seg2 ++ b)) by (repeat rewrite <- app_assoc; reflexivity).
-    rewrite (put_bits_paints 8) by (try assumption; lia). cbn [bind].
-    replace (a ++ bits_tail (u8 c) 8 ++ seg2 ++ b) with ((a ++ bits_tail (u8 c) 8) ++ seg2 ++ b) by (rewrite <- app_assoc; reflexivity).
+    unfold bits8 in *. rewrite (put_bits_paints 8) by (try assumption; lia). cbn [bind].
+    replace (a ++ vis iw x (bits_tail (u8 c) 8) ++ seg2 ++ b) with ((a ++ vis iw x (bits_tail (u8 c) 8)) ++ seg2 ++ b) by (rewrite <- app_assoc; reflexivity).
     change (Z.of_nat 8) with 8.
-    rewrite IH; [| exact Hl2 | rewrite zlen_app, zlen_bits_tail; lia | lia].
-    cbn [repeat bits_of flat_map]. fold (bits_of (repeat c n)). unfold bits8. repeat rewrite <- app_assoc. f_equal. f_equal. lia.
+    rewrite IH; [| exact Hl2 | | lia].
+    2:{ intros Hin. rewrite zlen_app, (vis_all iw x (bits_tail (u8 c) 8)) by (rewrite zlen_bits_tail; lia). rewrite zlen_bits_tail, Ha by lia. lia. }
+    repeat rewrite <- app_assoc. f_equal. f_equal. lia.
 Qed.
 
 (* a literal token: the bytes of the stream, 8 pixels each *)
-Lemma put_lit1_paints l : forall fp fs a seg b x y w width pw,
-  length seg = (8 * length l)%nat -> zlen a = y * width + x + pw -> x + 8 * zlen l <= w ->
-  put_lit1 (length l) (fp ++ l ++ fs) (a ++ seg ++ b) x y w width pw (zlen fp)
-  = Ok (a ++ bits_of l ++ b, x + 8 * zlen l, zlen fp + zlen l).
+Lemma put_lit1_paints l : forall fp fs a seg b x y w iw width pw,
+  length seg = length (vis iw x (bits_of l)) -> (x < iw -> zlen a = y * width + x + pw) -> x + 8 * zlen l <= w ->
+  put_lit1 (length l) (fp ++ l ++ fs) (a ++ seg ++ b) x y w iw width pw (zlen fp)
+  = Ok (a ++ vis iw x (bits_of l) ++ b, x + 8 * zlen l, zlen fp + zlen l).
 Proof.
-  induction l as [|c l IH]; intros fp fs a seg b x y w width pw Hl Ha Hx.
-  - destruct seg; [|discriminate]. cbn [put_lit1 length app bits_of flat_map]. change (zlen (@nil byte)) with 0. rewrite Z.mul_0_r, !Z.add_0_r. reflexivity.
+  induction l as [|c l IH]; intros fp fs a seg b x y w iw width pw Hl Ha Hx.
+  - cbn [bits_of flat_map] in *. rewrite vis_nil in *. destruct seg; [|discriminate]. cbn [put_lit1 length app]. change (zlen (@nil byte)) with 0. rewrite Z.mul_0_r, !Z.add_0_r. reflexivity.
   - cbn [put_lit1 length]. rewrite zlen_cons in *. pose proof (zlen_nonneg l).
     assert (Eg : get_idx (fp ++ (c :: l) ++ fs) (zlen fp) = Ok c).
     { unfold get_idx. cbn [app]. rewrite index_app_at by reflexivity. reflexivity. }
     rewrite Eg. cbn [bind].
-    set (seg1 := firstn 8 seg). set (seg2 := skipn 8 seg).
+    rewrite vis_bits_cons in *. rewrite app_length in Hl.
+    set (n1 := length (vis iw x (bits8 c))) in *.
+    set (seg1 := firstn n1 seg). set (seg2 := skipn n1 seg).
     assert (Hs : seg = seg1 ++ seg2) by (symmetry; apply firstn_skipn).
-    assert (Hl1 : length seg1 = 8%nat) by (unfold seg1; rewrite firstn_length; cbn [length] in Hl; lia).
-    assert (Hl2 : length seg2 = (8 * length l)%nat) by (unfold seg2; rewrite skipn_length; cbn [length] in Hl; lia).
+    assert (Hl1 : length seg1 = n1) by (unfold seg1; rewrite firstn_length; lia).
+    assert (Hl2 : length seg2 = length (vis iw (x + 8) (bits_of l))) by (unfold seg2; rewrite skipn_length; lia).
     rewrite Hs. replace (a ++ (seg1 ++ seg2) ++ b) with (a ++ seg1 ++ (seg2 ++ b)) by (repeat rewrite <- app_assoc; reflexivity).
-    rewrite (put_bits_paints 8) by (try assumption; lia). cbn [bind].
+    unfold bits8 in *. rewrite (put_bits_paints 8) by (try assumption; lia). cbn [bind].
     pose proof (zlen_nonneg fs).
     destruct (Z.gtb_spec (zlen fp + 1) (zlen (fp ++ (c :: l) ++ fs))) as [Hgt|_].
     { rewrite zlen_app in Hgt. cbn [app] in Hgt. rewrite zlen_cons, zlen_app in Hgt. lia. }
     replace (fp ++ (c :: l) ++ fs) with ((fp ++ [c]) ++ l ++ fs) by (cbn [app]; rewrite <- app_assoc; reflexivity).
-    replace (a ++ bits_tail (u8 c) 8 ++ seg2 ++ b) with ((a ++ bits_tail (u8 c) 8) ++ seg2 ++ b) by (rewrite <- app_assoc; reflexivity).
+    replace (a ++ vis iw x (bits_tail (u8 c) 8) ++ seg2 ++ b) with ((a ++ vis iw x (bits_tail (u8 c) 8)) ++ seg2 ++ b) by (rewrite <- app_assoc; reflexivity).
     replace (zlen fp + 1) with (zlen (fp ++ [c])) by (rewrite zlen_app; reflexivity).
     change (Z.of_nat 8) with 8.
-    rewrite IH; [| exact Hl2 | rewrite zlen_app, zlen_bits_tail; lia | lia].
-    cbn [bits_of flat_map]. fold (bits_of l). unfold bits8. repeat rewrite <- app_assoc. rewrite zlen_app. change (zlen [c]) with 1.
+    rewrite IH; [| exact Hl2 | | lia].
+    2:{ intros Hin. rewrite zlen_app, (vis_all iw x (bits_tail (u8 c) 8)) by (rewrite zlen_bits_tail; lia). rewrite zlen_bits_tail, Ha by lia. lia. }
+    repeat rewrite <- app_assoc. rewrite zlen_app. change (zlen [c]) with 1.
     f_equal. f_equal; [f_equal|]; lia.
 Qed.
 
 Section Row1.
-Variables (w width pw : Z).
+Variables (w iw width pw : Z).
 
-(* one token, started inside a row that it does not overrun *)
+(* one token, started inside a stored row that it does not overrun *)
 Lemma token_step1 t fuel fp fs a seg b x y :
-  wf_tok t -> length seg = (8 * length (dec_tok t))%nat -> zlen a = y * width + x + pw ->
+  wf_tok t -> length seg = length (vis iw x (bits_of (dec_tok t))) -> (x < iw -> zlen a = y * width + x + pw) ->
   x + 8 * zlen (dec_tok t) <= w -> 0 <= y ->
-  loop1 (S fuel) (fp ++ enc_tok t ++ fs) (Build_st (a ++ seg ++ b) x y (zlen fp)) w width pw =
-  let s' := Build_st (a ++ bits_of (dec_tok t) ++ b) in
+  loop1 (S fuel) (fp ++ enc_tok t ++ fs) (Build_st (a ++ seg ++ b) x y (zlen fp)) w iw width pw =
+  let s' := Build_st (a ++ vis iw x (bits_of (dec_tok t)) ++ b) in
   let x' := x + 8 * zlen (dec_tok t) in
   let idx' := zlen fp + zlen (enc_tok t) in
-  if x' >=? w then (if y - 1 <? 0 then Ok (s' 0 (y - 1) idx') else loop1 fuel (fp ++ enc_tok t ++ fs) (s' 0 (y - 1) idx') w width pw)
-  else loop1 fuel (fp ++ enc_tok t ++ fs) (s' x' y idx') w width pw.
+  if x' >=? w then (if y - 1 <? 0 then Ok (s' 0 (y - 1) idx') else loop1 fuel (fp ++ enc_tok t ++ fs) (s' 0 (y - 1) idx') w iw width pw)
+  else loop1 fuel (fp ++ enc_tok t ++ fs) (s' x' y idx') w iw width pw.
 Proof.
   intros Hwf Hseg Ha Hx Hy. cbn [loop1 s_idx s_y s_x s_data].
   pose proof (zlen_nonneg fp). pose proof (zlen_nonneg fs).
@@ -134,7 +148,7 @@ Proof.
       rewrite index_app_at by (rewrite zlen_app; reflexivity). reflexivity. }
     rewrite Eg2. cbn [bind].
     replace (Z.to_nat (257 - (257 - Z.of_nat n))) with n by lia.
-    rewrite repeat_length in Hseg. rewrite zlen_repeat in Hx.
+    rewrite zlen_repeat in Hx.
     rewrite put_run1_paints by assumption. cbn [bind].
     rewrite zlen_repeat. change (zlen [byte_of_Z (257 - Z.of_nat n); v]) with 2.
     reflexivity.
@@ -142,30 +156,30 @@ Qed.
 
 (* a whole stored row, cut into tokens in any way, started at x and ending exactly at w *)
 Lemma row_tokens1 ts : forall fuel fp fs a seg b x y,
-  ts <> [] -> Forall wf_tok ts -> length seg = (8 * length (dec_toks ts))%nat -> zlen a = y * width + x + pw ->
+  ts <> [] -> Forall wf_tok ts -> length seg = length (vis iw x (bits_of (dec_toks ts))) -> (x < iw -> zlen a = y * width + x + pw) ->
   x + 8 * zlen (dec_toks ts) = w -> 0 <= y ->
-  loop1 (length ts + fuel) (fp ++ enc_toks ts ++ fs) (Build_st (a ++ seg ++ b) x y (zlen fp)) w width pw =
-  let s' := Build_st (a ++ bits_of (dec_toks ts) ++ b) 0 (y - 1) (zlen fp + zlen (enc_toks ts)) in
-  if y - 1 <? 0 then Ok s' else loop1 fuel (fp ++ enc_toks ts ++ fs) s' w width pw.
+  loop1 (length ts + fuel) (fp ++ enc_toks ts ++ fs) (Build_st (a ++ seg ++ b) x y (zlen fp)) w iw width pw =
+  let s' := Build_st (a ++ vis iw x (bits_of (dec_toks ts)) ++ b) 0 (y - 1) (zlen fp + zlen (enc_toks ts)) in
+  if y - 1 <? 0 then Ok s' else loop1 fuel (fp ++ enc_toks ts ++ fs) s' w iw width pw.
 Proof.
   induction ts as [|t ts IH]; intros fuel fp fs a seg b x y Hne Hwf Hseg Ha Hx Hy; [congruence|].
   pose proof (Forall_inv Hwf) as Ht. pose proof (Forall_inv_tail Hwf) as Hts.
   unfold enc_toks, dec_toks in *. cbn [map concat] in *. fold (enc_toks ts) in *. fold (dec_toks ts) in *.
-  rewrite app_length in Hseg. rewrite zlen_app in Hx.
+  rewrite bits_of_app, vis_app, zlen_bits_of in *. rewrite app_length in Hseg. rewrite zlen_app in Hx.
   pose proof (dec_tok_pos t Ht) as Hpos. pose proof (zlen_nonneg (dec_toks ts)) as Hnn.
-  set (seg1 := firstn (8 * length (dec_tok t)) seg). set (seg2 := skipn (8 * length (dec_tok t)) seg).
+  set (n1 := length (vis iw x (bits_of (dec_tok t)))) in *.
+  set (seg1 := firstn n1 seg). set (seg2 := skipn n1 seg).
   assert (Hs : seg = seg1 ++ seg2) by (symmetry; apply firstn_skipn).
-  assert (Hl1 : length seg1 = (8 * length (dec_tok t))%nat) by (unfold seg1; rewrite firstn_length; lia).
-  assert (Hl2 : length seg2 = (8 * length (dec_toks ts))%nat) by (unfold seg2; rewrite skipn_length; lia).
+  assert (Hl1 : length seg1 = n1) by (unfold seg1; rewrite firstn_length; lia).
+  assert (Hl2 : length seg2 = length (vis iw (x + 8 * zlen (dec_tok t)) (bits_of (dec_toks ts)))) by (unfold seg2; rewrite skipn_length; lia).
   cbn [length Nat.add].
   replace (fp ++ (enc_tok t ++ enc_toks ts) ++ fs) with (fp ++ enc_tok t ++ (enc_toks ts ++ fs)) by (repeat rewrite <- app_assoc; reflexivity).
   rewrite Hs. replace (a ++ (seg1 ++ seg2) ++ b) with (a ++ seg1 ++ (seg2 ++ b)) by (repeat rewrite <- app_assoc; reflexivity).
   rewrite token_step1; try assumption; [|lia]. cbv zeta.
-  rewrite bits_of_app.
   destruct ts as [|t2 ts'].
   - (* last token of the row *)
-    change (dec_toks []) with (@nil byte) in *. change (zlen (@nil byte)) with 0 in Hx.
-    destruct seg2; [|discriminate]. cbn [app bits_of flat_map].
+    change (dec_toks []) with (@nil byte) in *. change (zlen (@nil byte)) with 0 in Hx. cbn [bits_of flat_map] in *. rewrite vis_nil in *.
+    destruct seg2; [|discriminate]. cbn [app].
     destruct (Z.geb_spec (x + 8 * zlen (dec_tok t)) w); [|lia].
     change (enc_toks []) with (@nil byte). rewrite !app_nil_r. cbn [length Nat.add].
     reflexivity.
@@ -175,10 +189,11 @@ Proof.
     destruct (Z.geb_spec (x + 8 * zlen (dec_tok t)) w); [lia|].
     replace (fp ++ enc_tok t ++ enc_toks (t2 :: ts') ++ fs) with ((fp ++ enc_tok t) ++ enc_toks (t2 :: ts') ++ fs)
       by (repeat rewrite <- app_assoc; reflexivity).
-    replace (a ++ bits_of (dec_tok t) ++ seg2 ++ b) with ((a ++ bits_of (dec_tok t)) ++ seg2 ++ b) by (repeat rewrite <- app_assoc; reflexivity).
+    replace (a ++ vis iw x (bits_of (dec_tok t)) ++ seg2 ++ b) with ((a ++ vis iw x (bits_of (dec_tok t))) ++ seg2 ++ b) by (repeat rewrite <- app_assoc; reflexivity).
     replace (zlen fp + zlen (enc_tok t)) with (zlen (fp ++ enc_tok t)) by (rewrite zlen_app; reflexivity).
-    rewrite (IH fuel (fp ++ enc_tok t) fs (a ++ bits_of (dec_tok t)) seg2 b (x + 8 * zlen (dec_tok t)) y); try assumption;
-      [| discriminate | rewrite zlen_app, zlen_bits_of; lia | lia].
+    rewrite (IH fuel (fp ++ enc_tok t) fs (a ++ vis iw x (bits_of (dec_tok t))) seg2 b (x + 8 * zlen (dec_tok t)) y); try assumption;
+      [| discriminate | | lia].
+    2:{ intros Hin. rewrite zlen_app, (vis_all iw x (bits_of (dec_tok t))) by (rewrite zlen_bits_of; lia). rewrite zlen_bits_of, Ha by lia. lia. }
     cbv zeta. repeat rewrite <- app_assoc. rewrite !zlen_app.
     replace (zlen fp + zlen (enc_tok t) + zlen (enc_toks (t2 :: ts'))) with (zlen fp + (zlen (enc_tok t) + zlen (enc_toks (t2 :: ts')))) by lia.
     reflexivity.
@@ -186,17 +201,17 @@ Qed.
 End Row1.
 
 (* ---------- a whole compressed 1-bit image ---------- *)
-Definition canvas1 (pw W width : Z) (ts : list tok) : bytes := canvas_row pw W width (bits_of (dec_toks ts)).
+Definition canvas1 (pw iw width : Z) (ts : list tok) : bytes := raw_canvas1 pw iw width (dec_toks ts).
 
-Lemma rows_image1 Wb W width pw rows : forall fuel fp above y,
-  0 <= pw -> 0 < Wb -> W = 8 * Wb -> pw + W <= width ->
+Lemma rows_image1 Wb W iw width pw rows : forall fuel fp above y,
+  0 <= pw -> 0 < iw -> iw <= W -> W = 8 * Wb -> pw + iw <= width ->
   Forall (wf_row Wb) rows -> y + 1 = zlen rows ->
   loop1 (ntoks rows + S fuel) (fp ++ concat (map enc_toks rows))
-        (Build_st (zerosZ (width * (y + 1)) ++ above) 0 y (zlen fp)) W width pw
-  = Ok (Build_st (concat (map (canvas1 pw W width) (rev rows)) ++ above) 0 (-1)
+        (Build_st (zerosZ (width * (y + 1)) ++ above) 0 y (zlen fp)) W iw width pw
+  = Ok (Build_st (concat (map (canvas1 pw iw width) (rev rows)) ++ above) 0 (-1)
                  (zlen (fp ++ concat (map enc_toks rows)))).
 Proof.
-  induction rows as [|r rows IH]; intros fuel fp above y Hpw HWb HW Hfit Hwf Hy.
+  induction rows as [|r rows IH]; intros fuel fp above y Hpw Hiw HiW HW Hfit Hwf Hy.
   - change (zlen (@nil (list tok))) with 0 in Hy. assert (y = -1) by lia. subst y.
     replace (width * (-1 + 1)) with 0 by lia. change (zerosZ 0) with (@nil byte).
     cbn [ntoks concat length map rev app Nat.add loop1 s_idx s_y]. rewrite app_nil_r.
@@ -205,35 +220,36 @@ Proof.
     rewrite zlen_cons in Hy. pose proof (zlen_nonneg rows) as Hrn. assert (Hy0 : 0 <= y) by lia.
     unfold ntoks. cbn [concat map]. rewrite app_length. fold (ntoks rows).
     replace (length r + ntoks rows + S fuel)%nat with (length r + (ntoks rows + S fuel))%nat by lia.
-    assert (Hsplit : zerosZ (width * (y + 1)) = (zerosZ (width * y) ++ zerosZ pw) ++ zerosZ W ++ zerosZ (width - pw - W)).
-    { replace (width * (y + 1)) with (width * y + (pw + (W + (width - pw - W)))) by lia.
+    assert (Hsplit : zerosZ (width * (y + 1)) = (zerosZ (width * y) ++ zerosZ pw) ++ zerosZ iw ++ zerosZ (width - pw - iw)).
+    { replace (width * (y + 1)) with (width * y + (pw + (iw + (width - pw - iw)))) by lia.
       rewrite zerosZ_add by nia. rewrite zerosZ_add by lia. rewrite zerosZ_add by lia.
       repeat rewrite <- app_assoc. reflexivity. }
     rewrite Hsplit.
-    replace (((zerosZ (width * y) ++ zerosZ pw) ++ zerosZ W ++ zerosZ (width - pw - W)) ++ above)
-      with ((zerosZ (width * y) ++ zerosZ pw) ++ zerosZ W ++ (zerosZ (width - pw - W) ++ above))
+    replace (((zerosZ (width * y) ++ zerosZ pw) ++ zerosZ iw ++ zerosZ (width - pw - iw)) ++ above)
+      with ((zerosZ (width * y) ++ zerosZ pw) ++ zerosZ iw ++ (zerosZ (width - pw - iw) ++ above))
       by (repeat rewrite <- app_assoc; reflexivity).
-    rewrite (row_tokens1 W width pw r (ntoks rows + S fuel) fp (concat (map enc_toks rows))); try assumption.
-    2:{ unfold zerosZ, zeros. rewrite repeat_length. unfold zlen in Hlen. lia. }
-    2:{ rewrite zlen_app, !zlen_zerosZ by nia. lia. }
+    assert (Hvis : vis iw 0 (bits_of (dec_toks r)) = firstn (Z.to_nat iw) (bits_of (dec_toks r))) by (unfold vis; rewrite Z.sub_0_r; reflexivity).
+    rewrite (row_tokens1 W iw width pw r (ntoks rows + S fuel) fp (concat (map enc_toks rows))); try assumption.
+    2:{ rewrite Hvis. unfold zerosZ, zeros. rewrite repeat_length, firstn_length, bits_of_length. unfold zlen in Hlen. lia. }
+    2:{ intros _. rewrite zlen_app, !zlen_zerosZ by nia. lia. }
     2:{ lia. }
-    cbv zeta.
+    cbv zeta. rewrite Hvis.
     destruct rows as [|r2 rows'].
     + change (zlen (@nil (list tok))) with 0 in Hy. assert (y = 0) by lia. subst y.
       cbn [Z.sub Z.ltb Z.compare Z.add Z.opp Z.pos_sub]. cbn [rev map concat app].
       f_equal. f_equal.
       * replace (width * 0) with 0 by lia. change (zerosZ 0) with (@nil byte). cbn [app].
-        unfold canvas1, canvas_row. repeat rewrite <- app_assoc. reflexivity.
+        unfold canvas1, raw_canvas1, canvas_row. repeat rewrite <- app_assoc. reflexivity.
       * rewrite app_nil_r, zlen_app. reflexivity.
     + assert (Hy1 : 1 <= y) by (rewrite zlen_cons in Hy; pose proof (zlen_nonneg rows'); lia).
       destruct (Z.ltb_spec (y - 1) 0); [lia|].
       replace (fp ++ enc_toks r ++ concat (map enc_toks (r2 :: rows'))) with ((fp ++ enc_toks r) ++ concat (map enc_toks (r2 :: rows')))
         by (rewrite <- app_assoc; reflexivity).
       replace (zlen fp + zlen (enc_toks r)) with (zlen (fp ++ enc_toks r)) by (rewrite zlen_app; reflexivity).
-      replace ((zerosZ (width * y) ++ zerosZ pw) ++ bits_of (dec_toks r) ++ zerosZ (width - pw - W) ++ above)
-        with (zerosZ (width * (y - 1 + 1)) ++ (canvas1 pw W width r ++ above)).
-      2:{ replace (y - 1 + 1) with y by lia. unfold canvas1, canvas_row. repeat rewrite <- app_assoc. reflexivity. }
-      rewrite (IH fuel (fp ++ enc_toks r) (canvas1 pw W width r ++ above) (y - 1)); try assumption; [|lia].
+      replace ((zerosZ (width * y) ++ zerosZ pw) ++ firstn (Z.to_nat iw) (bits_of (dec_toks r)) ++ zerosZ (width - pw - iw) ++ above)
+        with (zerosZ (width * (y - 1 + 1)) ++ (canvas1 pw iw width r ++ above)).
+      2:{ replace (y - 1 + 1) with y by lia. unfold canvas1, raw_canvas1, canvas_row. repeat rewrite <- app_assoc. reflexivity. }
+      rewrite (IH fuel (fp ++ enc_toks r) (canvas1 pw iw width r ++ above) (y - 1)); try assumption; [|lia].
       f_equal. f_equal. cbn [rev]. rewrite !map_app, !concat_app. cbn [map concat]. rewrite app_nil_r.
       repeat rewrite <- app_assoc. reflexivity.
 Qed.
@@ -248,28 +264,29 @@ Proof.
   - rewrite (Z.mod_small (16 - w mod 16) 16) by lia. split; [|lia].
     replace (w + (16 - w mod 16)) with ((w / 16 + 1) * 16) by lia. apply Z.mod_mul. lia.
 Qed.
+Lemma width16_bytes w : 0 <= w -> width16 w = 8 * (width16 w / 8).
+Proof.
+  intros Hw. pose proof (width16_spec w Hw) as [H16 _]. set (W := width16 w) in *.
+  pose proof (Z.div_mod W 16 ltac:(lia)) as Hd. rewrite H16 in Hd.
+  pose proof (Z.div_mod W 8 ltac:(lia)) as Hd8. pose proof (Z.mod_pos_bound W 8 ltac:(lia)).
+  assert (W mod 8 = 0); [|lia]. rewrite Hd. rewrite Z.add_0_r. replace (16 * (W / 16)) with ((2 * (W / 16)) * 8) by lia. apply Z.mod_mul. lia.
+Qed.
 
 (* The decoder's pixel array for a compressed 1-bit image: every valid scan-line PackBits encoding of rows of
-   width16 w / 8 bytes; pixel x of a row is bit 7 - x mod 8 of byte x / 8 of the decoded row.  Condition: the
-   stored row (with its pad bits) fits the BMP stride - otherwise the pad bits of a row land in the row above
-   (narrow images, the open finding C06-1bit). *)
+   width16 w / 8 bytes; pixel x of a row is bit 7 - x mod 8 of byte x / 8 of the decoded row; the pad bits are not
+   painted.  No geometry condition (since the repair of C06-1bit-narrow / C06-1bit-pad-overflow). *)
 Theorem compressed1_pixels bw bh pw ph rows :
   let w := bw - pw in let W := width16 w in let width := stride4 bw in
   0 <= pw -> 0 < w -> 0 <= ph -> zlen rows = bh - ph ->
-  pw + W <= width ->
   Forall (wf_row (W / 8)) rows ->
   decode_compressed1 (concat (map enc_toks rows)) bw bh pw ph width
-  = Ok (concat (map (canvas1 pw W width) (rev rows)) ++ zerosZ (width * ph)).
+  = Ok (concat (map (canvas1 pw w width) (rev rows)) ++ zerosZ (width * ph)).
 Proof.
-  intros w W width Hpw Hw Hph Hrows Hfit Hwf. unfold decode_compressed1. fold w.
+  intros w W width Hpw Hw Hph Hrows Hwf. unfold decode_compressed1. fold w.
   pose proof (width16_spec w ltac:(lia)) as [H16 HWr]. fold W in H16, HWr.
-  assert (HW8 : W = 8 * (W / 8)).
-  { pose proof (Z.div_mod W 16 ltac:(lia)) as Hd. rewrite H16 in Hd.
-    pose proof (Z.div_mod W 8 ltac:(lia)) as Hd8. pose proof (Z.mod_pos_bound W 8 ltac:(lia)).
-    assert (W mod 8 = 0); [|lia]. rewrite Hd. rewrite Z.add_0_r. replace (16 * (W / 16)) with ((2 * (W / 16)) * 8) by lia. apply Z.mod_mul. lia. }
+  pose proof (width16_bytes w ltac:(lia)) as HW8. fold W in HW8.
+  pose proof (stride4_spec bw ltac:(lia)) as [_ Hst]. fold width in Hst.
   lazy zeta. change (w + (16 - w mod 16) mod 16) with W.
-  destruct (Z.gtb_spec W width); [lia|]. change (w + (16 - w mod 16) mod 16) with W.
-  assert (Hwidth : 0 <= width) by lia.
   pose proof (zlen_nonneg rows) as Hrn.
   unfold bytearray. destruct (Z.ltb_spec (width * bh) 0); [nia|]. cbn [bind].
   replace (zeros (Z.to_nat (width * bh))) with (zerosZ (width * (bh - 1 - ph + 1)) ++ zerosZ (width * ph)).
@@ -279,23 +296,23 @@ Proof.
   replace (S (length (concat (map enc_toks rows)))) with (ntoks rows + S (length (concat (map enc_toks rows)) - ntoks rows))%nat by lia.
   replace (concat (map enc_toks rows)) with ([] ++ concat (map enc_toks rows)) at 2 by reflexivity.
   change 0 with (zlen (@nil byte)) at 2.
-  rewrite (rows_image1 (W / 8) W width pw rows); try assumption; try lia.
+  rewrite (rows_image1 (W / 8) W w width pw rows); try assumption; try lia.
   reflexivity.
 Qed.
 
 Theorem compressed1_encoding_independent bw bh pw ph rows1 rows2 :
   let w := bw - pw in let W := width16 w in let width := stride4 bw in
-  0 <= pw -> 0 < w -> 0 <= ph -> zlen rows1 = bh - ph -> zlen rows2 = bh - ph -> pw + W <= width ->
+  0 <= pw -> 0 < w -> 0 <= ph -> zlen rows1 = bh - ph -> zlen rows2 = bh - ph ->
   Forall (wf_row (W / 8)) rows1 -> Forall (wf_row (W / 8)) rows2 ->
   map dec_toks rows1 = map dec_toks rows2 ->
   decode_compressed1 (concat (map enc_toks rows1)) bw bh pw ph width
   = decode_compressed1 (concat (map enc_toks rows2)) bw bh pw ph width.
 Proof.
-  intros w W width H1 H2 H3 H4 H5 H6 H7 H8 Heq. subst w W width.
+  intros w W width H1 H2 H3 H4 H5 H7 H8 Heq. subst w W width.
   rewrite (compressed1_pixels bw bh pw ph rows1), (compressed1_pixels bw bh pw ph rows2) by assumption.
   f_equal. f_equal.
-  assert (E : forall rows, map (canvas1 pw (width16 (bw - pw)) (stride4 bw)) (rev rows)
-                         = map (fun d => canvas_row pw (width16 (bw - pw)) (stride4 bw) (bits_of d)) (rev (map dec_toks rows))).
+  assert (E : forall rows, map (canvas1 pw (bw - pw) (stride4 bw)) (rev rows)
+                         = map (raw_canvas1 pw (bw - pw) (stride4 bw)) (rev (map dec_toks rows))).
   { intros rows. rewrite <- map_rev, map_map. reflexivity. }
   rewrite !E, Heq. reflexivity.
 Qed.
